@@ -92,9 +92,45 @@ func runC09(c *Ctx) {
 
 	// ---- R2 ----
 	c03StateTables(c, "C09-R2")
-	if drm := c.MustFunc("C09-R2", "internal/config.defaultRuleMatch"); drm != nil {
+	if drm0 := c.MustFunc("C09-R2", "internal/config.defaultRuleMatch"); drm0 != nil {
+		// follow a helper the body may have been extracted into (depth 1): the function that stores Match.State
+		drm := drm0
+		storesState := func(fi *FuncInfo) bool {
+			found := false
+			ast.Inspect(fi.Decl.Body, func(n ast.Node) bool {
+				if as, ok := n.(*ast.AssignStmt); ok {
+					for _, l := range as.Lhs {
+						if fieldSel(info, l, "internal/config.Match", "State") {
+							found = true
+						}
+					}
+				}
+				return true
+			})
+			return found
+		}
+		if !storesState(drm0) {
+			ast.Inspect(drm0.Decl.Body, func(n ast.Node) bool {
+				if call, ok := n.(*ast.CallExpr); ok {
+					if callee := p.FuncOf(Callee(info, call)); callee != nil && callee.Pkg == cfg && callee.Decl.Body != nil && storesState(callee) {
+						drm = callee
+					}
+				}
+				return true
+			})
+		}
+		// the defaulting function is applied to match blocks only
+		if drm != drm0 {
+			for _, cs := range p.CallersOf(drm.Obj) {
+				c.Check(cs.Caller == drm0, "C09-R2", "state defaulting helper called from "+cs.Caller.Name, cs.Call.Pos(), "only for match blocks", "the state default is also applied outside defaultRuleMatch (ignore blocks must not get a state default)")
+			}
+		}
 		fl := p.NewFlow(drm)
 		sig := drm.Obj.Type().(*types.Signature)
+		if paramIndex(sig, "defaultStates") < 0 {
+			c.Undecided("C09-R2", "defaultRuleMatch:defaultStates parameter", drm.Decl.Pos(), "parameter not found in "+drm.Name)
+			return
+		}
 		def := sig.Params().At(paramIndex(sig, "defaultStates"))
 		stores := fl.Find(func(n ast.Node) bool {
 			as, ok := n.(*ast.AssignStmt)
@@ -136,6 +172,17 @@ func runC09(c *Ctx) {
 		for _, cl := range compositeLits(info, drm.Decl.Body, "internal/config.Match") {
 			if v := litField(cl, "State"); v != nil && objOf(info, v) == def && len(cl.Elts) == 1 {
 				okEmpty = true
+			}
+		}
+		if !okEmpty && drm != drm0 {
+			sig0 := drm0.Obj.Type().(*types.Signature)
+			if i := paramIndex(sig0, "defaultStates"); i >= 0 {
+				def0 := sig0.Params().At(i)
+				for _, cl := range compositeLits(info, drm0.Decl.Body, "internal/config.Match") {
+					if v := litField(cl, "State"); v != nil && objOf(info, v) == def0 && len(cl.Elts) == 1 {
+						okEmpty = true
+					}
+				}
 			}
 		}
 		c.Check(okEmpty, "C09-R2", "defaultRuleMatch:no match block -> state-only default block", drm.Decl.Pos(), "Match{State: defaultStates}", "a rule block without match{} no longer gets the state-only default")
@@ -394,6 +441,45 @@ func runC09(c *Ctx) {
 			})
 			c.Check(nW == 1, "C09-R6", "isMatch:found has one writer", found.Pos(), "single store", itoa(nW)+" stores to the found flag")
 		}
+	}
+	// ignore blocks are used as configured (no state default), match blocks go through defaultRuleMatch
+	if npr := c.MustFunc("C09-R2", "internal/config.newParsedRule"); npr != nil {
+		okIgn, okMatch := false, false
+		for _, cl := range compositeLits(info, npr.Decl.Body, "internal/config.parsedRule") {
+			if v := litField(cl, "ignore"); v != nil && fieldSel(info, v, "internal/config.Rule", "Ignore") {
+				okIgn = true
+			}
+			if v := litField(cl, "match"); v != nil {
+				if call, ok := v.(*ast.CallExpr); ok && isCallTo(info, call, "internal/config.defaultRuleMatch") && len(call.Args) == 2 && fieldSel(info, call.Args[0], "internal/config.Rule", "Match") {
+					okMatch = true
+				}
+			}
+		}
+		c.Check(okIgn, "C09-R2", "newParsedRule:ignore blocks taken as configured", npr.Decl.Pos(), "ignore: rule.Ignore", "ignore blocks are transformed before use (e.g. given a state default): a fully satisfied ignore block can stop excluding rules")
+		c.Check(okMatch, "C09-R2", "newParsedRule:match blocks get the command's state default", npr.Decl.Pos(), "match: defaultRuleMatch(rule.Match, …)", "match blocks no longer go through defaultRuleMatch")
+	}
+	// path conditions see the path the file was found under
+	if ism := c.MustFunc("C09-R3", "internal/config.isMatch"); ism != nil {
+		sig := ism.Obj.Type().(*types.Signature)
+		entryP := sig.Params().At(paramIndex(sig, "e"))
+		mim := p.Func("internal/config.Match.IsMatch")
+		n, good := 0, 0
+		ast.Inspect(ism.Decl.Body, func(nd ast.Node) bool {
+			call, ok := nd.(*ast.CallExpr)
+			if !ok || mim == nil || Callee(info, call) != mim.Obj {
+				return true
+			}
+			n++
+			i := paramIndex(mim.Obj.Type().(*types.Signature), "path")
+			j := paramIndex(mim.Obj.Type().(*types.Signature), "e")
+			if i >= 0 && j >= 0 && fieldSel(info, call.Args[i], "internal/discovery.Path", "Name") && objOf(info, call.Args[j]) == entryP {
+				if r, _, _ := accessPath(info, call.Args[i]); r == entryP {
+					good++
+				}
+			}
+			return true
+		})
+		c.Check(n >= 2 && n == good, "C09-R3", "isMatch:path conditions evaluated on e.Path.Name", ism.Decl.Pos(), itoa(good)+" call(s)", "path conditions are not evaluated against the entry's Path.Name ("+itoa(good)+"/"+itoa(n)+" calls)")
 	}
 	// isMatch is what GetChecksForEntry and parsedRule.isEnabled use
 	for _, fn := range []string{"internal/config.Config.GetChecksForEntry", "internal/config.parsedRule.isEnabled"} {
